@@ -7,7 +7,7 @@ Local Open Scope Z_scope.
 Theorem C03_evaluator_uses_combinators : forall ped repl lim f t cond body c,
   eval ped repl lim (S f) (NWhile t cond body) c = while_loop lim f t c (eval ped repl lim f cond c) (run_block ped repl lim f body c) /\
   eval ped repl lim (S f) (NRepeat t cond body) c = repeat_loop lim f t c (eval ped repl lim f cond c) (run_block ped repl lim f body c).
-Proof. intros. split; reflexivity. Qed.
+Proof. intros. split; [apply eval_while|apply eval_repeat]. Qed.
 Print Assumptions C03_evaluator_uses_combinators.
 
 Theorem C03_if_first_true : forall t c ce b rest s s1,
